@@ -83,7 +83,7 @@ let parse_cfg (s : string) : cfg =
 
 let run_sess fields =
   match fields with
-  | [cfgs; worlds; input; mode] ->
+  | cfgs :: worlds :: input :: mode :: _ ->
       let c = parse_cfg cfgs in
       let w = parse_world (String.split_on_char ' ' worlds) in
       let inp = content_of_spec input in
